@@ -146,7 +146,7 @@ COMPANIONS = [
 
 def run(tier: str, seed: int) -> list[Part]:
     parts = []
-    for cfg in ["PairsGeneral.cfg", "PairsSlices.cfg", "PairsSorts.cfg"]:
+    for cfg in ["PairsGeneral.cfg", "PairsSlices.cfg", "PairsSorts.cfg"] + (["PairsGeneral2.cfg"] if tier == "thorough" else []):
         t0 = time.time()
         res = run_tlc("MC_Pairs.tla", cfg)
         if res.violated:
